@@ -129,12 +129,16 @@ where
 			};
 			// Business goes here
 			if wallet_opened {
-				owner::update_wallet_state(
+				if let Err(e) = owner::update_wallet_state(
 					self.wallet_inst.clone(),
 					(&keychain_mask).as_ref(),
 					status_send_channel,
 					false,
-				)?;
+				) {
+					// nothing is updating the wallet any more: calls must refresh by themselves again
+					self.is_running.store(false, Ordering::Relaxed);
+					return Err(e);
+				}
 			}
 			if !self.is_running.load(Ordering::Relaxed) {
 				break;
